@@ -165,7 +165,7 @@ def signature(m):
 
 
 def render_macro(m):
-    name = f"M{m['id']}"
+    name = m.get("name") or f"M{m['id']}"
     sa = selfarg(m)
     body = []
     for j, ch in enumerate(m["body"]):
@@ -198,6 +198,10 @@ def render_macro(m):
         lines.append("")
         lines.append(f"    def graph_creator{signature(m)}:")
         lines += ["        " + b for b in body]
+    elif m.get("style", "deco") == "plain":
+        # the bare creator (handed to `macro_node` by the caller)
+        lines.append(f"def {name}{signature(m)}:")
+        lines += ["    " + b for b in body]
     elif m.get("style", "deco") == "deco":
         deco = "@as_macro_node"
         if labels is not None:
@@ -227,5 +231,34 @@ def render(defn):
     for m in macros_of(defn):
         parts.append("")
         parts.append(render_macro(m))
+        parts.append("")
+    return "\n".join(parts) + "\n"
+
+
+def render_family(defs):
+    """creators that all carry the same bare name `Model`, each defined in the local scope of its own
+    function: `make_k()` returns the class the decorator made of creator k, `node_k()` an instance made by
+    `macro_node(creator_k, …)`. Leaves only."""
+    parts = [
+        "from __future__ import annotations",
+        "",
+        "from pyiron_workflow import Macro, as_macro_node, macro_node",
+        "",
+        "from pwh import nodes",
+        "",
+    ]
+    for k, d in enumerate(defs):
+        deco = dict(d, name="Model", style="deco")
+        plain = dict(d, name="Model", style="plain")
+        parts.append("")
+        parts.append(f"def make_{k}():")
+        parts += ["    " + line for line in render_macro(deco).split("\n")]
+        parts.append("    return Model")
+        parts.append("")
+        parts.append("")
+        parts.append(f"def node_{k}(**kwargs):")
+        parts += ["    " + line for line in render_macro(plain).split("\n")]
+        labels = out_labels(d) if d["lab"] == "declare" and d["rets"] else None
+        parts.append(f"    return macro_node(Model, output_labels={tuple(labels) if labels else None!r}, **kwargs)")
         parts.append("")
     return "\n".join(parts) + "\n"
